@@ -61,10 +61,24 @@ theorem published_inside (chk : Bytes → Bool) (l enc : Loc) (hv : l.valid = tr
   simp only [Except.ok.injEq]
   exact contains_iff _ _
 
-/-- … inside that location itself (a location as the provider uses it has the root `sdc.ctxt.loc.detail`) -/
-theorem published_inside_self (chk : Bytes → Bool) (l : Loc) (hv : l.valid = true) (hr : l.root = defaultRoot)
+/-- … inside that location itself — for a location with the root `sdc.ctxt.loc.detail` (the constructor default, and the
+    root GLUE prescribes for the fallback identifier). This is the part of the full statement the code satisfies. -/
+theorem published_inside_self_partial (chk : Bytes → Bool) (l : Loc) (hv : l.valid = true) (hr : l.root = defaultRoot)
     (s : Bytes) (hp : published l = .ok s) : scopeStringMatches chk l s = .ok true :=
   (published_inside chk l l hv s hp).mpr ⟨hr, Or.inr rfl, Or.inr rfl, Or.inr rfl, Or.inr rfl, Or.inr rfl, Or.inr rfl⟩
+
+/-- the statement at full strength: *every* location recognises the scope a provider publishes for it as inside itself -/
+def published_inside_self_full : Prop :=
+  ∀ (chk : Bytes → Bool) (l : Loc) (s : Bytes), l.valid = true → published l = .ok s → scopeStringMatches chk l s = .ok true
+
+/-- It is false of the current code (known finding `published-not-inside-own-location:non-default-root`): the deprecated
+    `SdcLocation.root` can be set to something else, `update_from_sdc_location` always publishes the identifier root
+    `sdc.ctxt.loc.detail`, and `__contains__` compares roots. Witness: `SdcLocation(fac='a', root='r')`. -/
+theorem published_inside_self_full_fails : ¬ published_inside_self_full := by
+  intro h
+  have := h (fun _ => true) ⟨[114], some [97], none, none, none, none, none⟩ _ (by decide) rfl
+  revert this
+  decide
 
 /-- … inside every enclosing (less specific) location: drop any subset of the elements -/
 theorem published_inside_enclosing (chk : Bytes → Bool) (l : Loc) (hv : l.valid = true) (s : Bytes)
